@@ -1,10 +1,210 @@
+/-
+Line protocol of the request slice (C02).
+
+Canonical text of a request (tokens separated by one space; byte strings lowercase hex, empty = `-`):
+  bind <dn> <pw> | saslext | unbind | delete <dn> | abandon <int> | compare <dn> <attr> <val>
+  moddn <dn> <rdn> <0|1> <sup|none> | extended <name|none> <val|none>
+  add <dn> <attrs>          attrs = `[]` or `name=v,v;name=v`     (an empty value set: `name=`)
+  modify <dn> <mods>        mods  = `[]` or `k:name=v,v;k:name=`  (k = 0 add, 1 delete, 2 replace, 3 increment)
+  search <base> <scope> <deref> <size> <time> <0|1> <attrs> <filter tlv…>     attrs = `[]` or `a,b,c`
+Controls: `none` | `[]` | `[oid:crit:val|none,…]` (Driver/Envelope).
+
+  req.enc <id> <ctrls> <request>      hex of Model.encodeMsg id (build request) ctrls     (value sets in the order given)
+  spec.req.dec <hex>                   `<id> <ctrls> <request>` read by Spec.decodeRequest from the parsed bytes,
+                                       value sets sorted; `undecodable` otherwise
+  handle.run <call> | <call> | …       calls: `wc h <ctrls>`, `wt h <ms>`, `wo h <deref> <0|1> <time> <size>`,
+                                       `op h <request>`, `bad h`, `clone src dst`
+      answer: one item per call joined by ` | `:  `<what> h<k>=<ctrls>/<timeout|none>/<opts|none>`
+      what = `-` (nothing sent) | `refused` | `panic` | `sent <id> <ctrls> <timeout|none> <request>`;
+      the handle shown is the one the call acted on (dst of a clone), after the call
+-/
 import Ldap3V.Driver.Util
+import Ldap3V.Driver.Envelope
+import Ldap3V.Spec.Requests
 namespace Ldap3V.Driver
 open Ldap3V
 
-/-- line-protocol handler for the `Requests` family of commands; `none` = not mine -/
+def showOpt (o : Option Bytes) : String := match o with | some v => hexOf v | none => "none"
+
+def showHexList (l : List Bytes) : String := if l.isEmpty then "[]" else ",".intercalate (l.map hexOf)
+
+def showVals (l : List Bytes) : String := ",".intercalate (l.map hexOf)
+
+def showAttrs (l : List (Bytes × List Bytes)) : String :=
+  if l.isEmpty then "[]" else ";".intercalate (l.map fun a => hexOf a.1 ++ "=" ++ showVals a.2)
+
+def kindNum : ModKind → Nat | .add => 0 | .delete => 1 | .replace => 2 | .increment => 3
+def scopeNum : Scope → Nat | .base => 0 | .oneLevel => 1 | .subtree => 2
+def derefNum : Deref → Nat | .never => 0 | .searching => 1 | .finding => 2 | .always => 3
+
+def showMods (l : List (ModKind × Bytes × List Bytes)) : String :=
+  if l.isEmpty then "[]" else
+    ";".intercalate (l.map fun m => toString (kindNum m.1) ++ ":" ++ hexOf m.2.1 ++ "=" ++ showVals m.2.2)
+
+def b01 (b : Bool) : String := if b then "1" else "0"
+
+def showReq : Request → String
+  | .simpleBind dn pw => s!"bind {hexOf dn} {hexOf pw}"
+  | .saslExternal => "saslext"
+  | .search b s d sl tl to f as =>
+    s!"search {hexOf b} {scopeNum s} {derefNum d} {sl} {tl} {b01 to} {showHexList as} {showTlv f}"
+  | .add dn as => s!"add {hexOf dn} {showAttrs as}"
+  | .compare dn a v => s!"compare {hexOf dn} {hexOf a} {hexOf v}"
+  | .delete dn => s!"delete {hexOf dn}"
+  | .modify dn ms => s!"modify {hexOf dn} {showMods ms}"
+  | .modifyDn dn rdn d sup => s!"moddn {hexOf dn} {hexOf rdn} {b01 d} {showOpt sup}"
+  | .extended n v => s!"extended {showOpt n} {showOpt v}"
+  | .unbind => "unbind"
+  | .abandon id => s!"abandon {id}"
+
+/-- lexicographic order on byte strings -/
+def bytesLe : Bytes → Bytes → Bool
+  | [], _ => true
+  | _ :: _, [] => false
+  | a :: as, b :: bs => if a < b then true else if b < a then false else bytesLe as bs
+
+def insertSorted (x : Bytes) : List Bytes → List Bytes
+  | [] => [x]
+  | y :: ys => if bytesLe x y then x :: y :: ys else y :: insertSorted x ys
+
+def sortBytes (l : List Bytes) : List Bytes := l.foldr insertSorted []
+
+/-- value sets in canonical (sorted) order -/
+def canonReq : Request → Request
+  | .add dn as => .add dn (as.map fun a => (a.1, sortBytes a.2))
+  | .modify dn ms => .modify dn (ms.map fun m => (m.1, m.2.1, sortBytes m.2.2))
+  | r => r
+
+def showCtrlsOpt : Option (List RawControl) → String
+  | none => "none"
+  | some cs => "[" ++ ",".intercalate (cs.map showRaw) ++ "]"
+
+/-! parsing -/
+
+def parseOpt (s : String) : Option (Option Bytes) :=
+  if s == "none" then some none else (unhex s).map some
+
+def parseHexList (s : String) : Option (List Bytes) :=
+  if s == "[]" then some [] else (s.splitOn ",").mapM unhex
+
+def parseVals (s : String) : Option (List Bytes) :=
+  if s == "" then some [] else (s.splitOn ",").mapM unhex
+
+def parseAttr (s : String) : Option (Bytes × List Bytes) :=
+  match s.splitOn "=" with
+  | [n, vs] => match unhex n, parseVals vs with
+    | some n, some vs => some (n, vs)
+    | _, _ => none
+  | _ => none
+
+def parseAttrs (s : String) : Option (List (Bytes × List Bytes)) :=
+  if s == "[]" then some [] else (s.splitOn ";").mapM parseAttr
+
+def kindOf (s : String) : Option ModKind :=
+  match s with
+  | "0" => some .add | "1" => some .delete | "2" => some .replace | "3" => some .increment | _ => none
+
+def parseMod (s : String) : Option (ModKind × Bytes × List Bytes) :=
+  match s.splitOn ":" with
+  | [k, rest] => match kindOf k, parseAttr rest with
+    | some k, some (n, vs) => some (k, n, vs)
+    | _, _ => none
+  | _ => none
+
+def parseMods (s : String) : Option (List (ModKind × Bytes × List Bytes)) :=
+  if s == "[]" then some [] else (s.splitOn ";").mapM parseMod
+
+def scopeOfS (s : String) : Option Scope :=
+  match s with | "0" => some .base | "1" => some .oneLevel | "2" => some .subtree | _ => none
+
+def derefOfS (s : String) : Option Deref :=
+  match s with
+  | "0" => some .never | "1" => some .searching | "2" => some .finding | "3" => some .always | _ => none
+
+def parseReqToks : List String → Option Request
+  | ["bind", dn, pw] => do some (.simpleBind (← unhex dn) (← unhex pw))
+  | ["saslext"] => some .saslExternal
+  | ["unbind"] => some .unbind
+  | ["delete", dn] => do some (.delete (← unhex dn))
+  | ["abandon", i] => do some (.abandon (← parseInt i))
+  | ["compare", dn, a, v] => do some (.compare (← unhex dn) (← unhex a) (← unhex v))
+  | ["moddn", dn, rdn, d, sup] => do some (.modifyDn (← unhex dn) (← unhex rdn) (d == "1") (← parseOpt sup))
+  | ["extended", n, v] => do some (.extended (← parseOpt n) (← parseOpt v))
+  | ["add", dn, as] => do some (.add (← unhex dn) (← parseAttrs as))
+  | ["modify", dn, ms] => do some (.modify (← unhex dn) (← parseMods ms))
+  | "search" :: b :: s :: d :: sl :: tl :: to :: as :: f =>
+    do some (.search (← unhex b) (← scopeOfS s) (← derefOfS d) (← parseInt sl) (← parseInt tl) (to == "1")
+        (← parseTlv (" ".intercalate f)) (← parseHexList as))
+  | _ => none
+
+def parseReq (s : String) : Option Request := parseReqToks (s.splitOn " ")
+
+def showSearchOpts (o : SearchOpts) : String := s!"{derefNum o.deref}:{b01 o.typesOnly}:{o.timeLimit}:{o.sizeLimit}"
+
+def showHandle (H : Handle) : String :=
+  showCtrlsOpt H.controls ++ "/" ++ (match H.timeout with | some t => toString t | none => "none") ++ "/" ++
+    (match H.searchOpts with | some o => showSearchOpts o | none => "none")
+
+def parseCall (s : String) : Option HandleCall :=
+  match s.splitOn " " with
+  | ["wc", h, cs] => do
+    match ← parseRawList cs with
+    | some l => some (.withControls (← h.toNat?) l)
+    | none => none
+  | ["wt", h, t] => do some (.withTimeout (← h.toNat?) (← t.toNat?))
+  | ["wo", h, d, to, tl, sl] =>
+    do some (.withSearchOptions (← h.toNat?) ⟨← derefOfS d, to == "1", ← parseInt tl, ← parseInt sl⟩)
+  | ["bad", h] => do some (.searchBadFilter (← h.toNat?))
+  | ["clone", a, b] => do some (.clone (← a.toNat?) (← b.toNat?))
+  | "op" :: h :: rest => do some (.op (← h.toNat?) (← parseReqToks rest))
+  | _ => none
+
+def callHandle : HandleCall → Nat
+  | .withControls h _ | .withTimeout h _ | .withSearchOptions h _ | .op h _ | .searchBadFilter h => h
+  | .clone _ dst => dst
+
+def showSent (m : Sent) : String :=
+  s!"sent {m.id} {showCtrlsOpt m.ctrls} {match m.timeout with | some t => toString t | none => "none"} {showReq m.req}"
+
+/-- run the script call by call with the model's `step`, reporting each call's effect -/
+def runScript (calls : List HandleCall) : String :=
+  let (_, items) := calls.foldl (fun (acc : HState × List String) c =>
+    let s := acc.1
+    let s' := step s c
+    let what :=
+      if s'.wire.length > s.wire.length then
+        match s'.wire.getLast? with | some m => showSent m | none => "?"
+      else match c with
+        | .op _ r => (match issue r with
+          | .errAddNoValues => "refused" | .panic => "panic" | .send _ => "?")
+        | _ => "-"
+    let h := callHandle c
+    (s', acc.2 ++ [what ++ " h" ++ toString h ++ "=" ++ showHandle (s'.handles h)])) (HState.init, [])
+  " | ".intercalate items
+
 def handleRequests (cmd arg : String) : Option String :=
   match cmd with
+  | "req.enc" =>
+    some (match arg.splitOn " " with
+      | id :: cs :: rest =>
+        match id.toNat?, parseRawList cs, parseReqToks rest with
+        | some id, some cs, some r => hexOf (encodeMsg (id : Int) (build r) cs)
+        | _, _, _ => "bad-request"
+      | _ => "bad-request")
+  | "spec.req.dec" =>
+    some (match unhex arg with
+      | some bs =>
+        match parseTag bs with
+        | .ok t [] =>
+          (match Spec.decodeRequest t with
+           | some (id, r, cs) => s!"{id} {showCtrlsOpt cs} {showReq (canonReq r)}"
+           | none => "undecodable")
+        | _ => "undecodable"
+      | none => "bad-request")
+  | "handle.run" =>
+    some (match (arg.splitOn " | ").mapM parseCall with
+      | some calls => runScript calls
+      | none => "bad-request")
   | _ => none
 
 end Ldap3V.Driver
